@@ -6,7 +6,7 @@
     sizeof, _Alignof, offsetof of every member designator, and bit-field positions observed through the
     "set one member to all ones, dump the bytes" image;  (3) declarators (pointer/array/function nesting) via sizeof.
 Oracle: gcc == clang (psABI implementations)."""
-import os, itertools, random
+import re, os, itertools, random
 from lib import core, cint, ctype
 
 LEVEL = 'exploration'
@@ -53,7 +53,15 @@ def spec_program(sp):
 def type_observations(k, ty, lines, body, owners, tag):
     name = 'T%d' % k
     ty.tag = name
-    lines.append(ty.body() + ';')
+    text = ty.body()
+    # the tag may have been declared before (incomplete) and attributes may stand after the closing brace
+    m = re.match(r'(struct|union)( __attribute__\(\(.*?\)\))? (T\d+) \{', text)
+    if m and k % 4 in (2, 3) and m.group(2):
+        text = '%s %s {' % (m.group(1), m.group(3)) + text[m.end():] + m.group(2)
+    if k % 4 in (1, 3):
+        lines.append(['%s %s;' % (ty.kind, name), 'typedef %s %s %s_t;' % (ty.kind, name, name), '%s %s *fwd_%s(%s %s *);' % (ty.kind, name, name, ty.kind, name),
+                      'extern %s %s ext_%s;' % (ty.kind, name, name)][(k // 4) % 4])
+    lines.append(text + ';')
     kw = ty.kind + ' ' + name
     feats = '+'.join(sorted(f for f in ty.features() if not f.startswith('scalar:')))
     key = 'C08|layout|%s%s' % (tag, feats)
